@@ -218,6 +218,9 @@ def design_models(rep, pid, t):
     if pid in ("C01", "C02", "C04", "C16"):
         rep.add_model("Strat(NC=3,NL=4,caps 2/3)", vlib.check_model("Strat", "MC_Strat.cfg", extra=["-coverage", "1"]),
                       "every oracle (con, de, memoised search results), modes 1->2->0: FlagExact, NoHarm, AlreadyOk, StrictCap, Mode2CoversMode1")
+    if pid in ("C01", "C16"):
+        rep.add_model("Strat liveness (NC=3,NL=3)", vlib.check_model("Strat", "MC_Strat_live.cfg"),
+                      "under weak fairness every run (modes 1, 2, 0) terminates: <>(pc = done /\\ mode = 0)")
     if pid == "C16":
         cfg = "MC_Opt2.cfg" if t == "thorough" else "MC_Opt2_small.cfg"
         rep.add_model(cfg[:-4], vlib.check_model("Opt2", cfg, heap="24g", timeout=3000),
